@@ -794,7 +794,7 @@ class TiltInterface(Plane):
         .. code:: python
 
             wavefront = super().multiply(wavefront)
-            tilt = copy.copy(self)
+            tilt = self._snapshot()
             for field in wavefront.data:
                 field.tilt.append(tilt)
             return wavefront
@@ -807,10 +807,15 @@ class TiltInterface(Plane):
         wavefront = super().multiply(wavefront)
         # (a copy: the wavefront keeps the tilt this element has NOW, whatever
         # its owner sets it to afterwards - e.g. one Tilt plane updated in a loop)
-        tilt = copy.copy(self)
+        tilt = self._snapshot()
         for field in wavefront.data:
             field.tilt.append(tilt)
         return wavefront
+
+    def _snapshot(self):
+        # the element as it is now. Elements that keep their state in arrays
+        # copy those as well (see DispersiveTilt)
+        return copy.copy(self)
     
     def shift(self, wavelength, x0, y0, **kwargs):
         """TODO
@@ -927,6 +932,13 @@ class DispersiveTilt(TiltInterface):
 
         self.dispersion = np.asarray(dispersion)
         assert self._dispersion_order >= 1
+
+    def _snapshot(self):
+        # (the coefficient arrays can be edited in place by the owner of the element)
+        tilt = copy.copy(self)
+        tilt.trace = np.array(self.trace)
+        tilt.dispersion = np.array(self.dispersion)
+        return tilt
 
     # the polynomial orders follow the current coefficients: trace and
     # dispersion are plain attributes and may be replaced after construction
